@@ -11,6 +11,9 @@ import z3
 QUICK_TIMEOUT_MS = int(os.environ.get("PYVC_TIMEOUT_MS", "10000"))
 
 
+EXTRA_REFUTERS: list = []
+
+
 class VCResult:
     __slots__ = ("status", "backend", "seconds", "model", "reason", "smt_size")
 
@@ -58,6 +61,13 @@ def check_vc(pc, goal, timeout_ms=None, want_model=True, use_cvc5=True) -> VCRes
         w = None
     if w is not None:
         return VCResult("refuted", "random-instantiation", dt, model=None, reason="falsified by concrete instantiation: " + str(dict(list(w.items())[:40])))
+    for refuter in EXTRA_REFUTERS:      # pack-registered bounded instantiation (DESIGN 2.5.3a): fn(pc, goal, timeout_ms) -> reason | None
+        try:
+            why = refuter(pc, goal, timeout_ms)
+        except z3.Z3Exception:
+            why = None
+        if why:
+            return VCResult("refuted", "bounded-instantiation", time.time() - t0, model=None, reason=why)
     if use_cvc5:
         try:
             smt2 = s.to_smt2()
